@@ -193,8 +193,8 @@ Proof.
 Qed.
 
 Lemma restart_tail_agree now : forall tl s s' e, Forall (fun st => st <> 0) tl -> AgreeX m s s' ->
-  AgreeX m (fst (fold_left (fun (acc : xs * bool) stage => if snd acc then acc else at_sim_start (nmods sc) (cfg sc m) now m stage (fst acc)) tl (s, e)))
-           (fst (fold_left (fun (acc : xs * bool) stage => if snd acc then acc else at_sim_start (nmods sc') (cfg sc' m) now m stage (fst acc)) tl (s', e))).
+  AgreeX m (fst (fold_left (fun (acc : xs * bool) stage => if snd acc then acc else restart_stage (nmods sc) (cfg sc m) now m stage (fst acc)) tl (s, e)))
+           (fst (fold_left (fun (acc : xs * bool) stage => if snd acc then acc else restart_stage (nmods sc') (cfg sc' m) now m stage (fst acc)) tl (s', e))).
 Proof.
   induction tl as [|st tl IH]; intros s s' e Hne H; cbn [fold_left fst snd]; [exact H|].
   inversion Hne as [|x l Hx Hl]; subst. destruct e; [apply IH; assumption|]. rewrite at_sim_start_later by assumption.
@@ -204,7 +204,7 @@ Proof.
 Qed.
 
 Lemma restart_tail_div now w : forall tl s', Forall (fun st => st <> 0) tl -> Div m w (x_w s') ->
-  Div m w (x_w (fst (fold_left (fun (acc : xs * bool) stage => if snd acc then acc else at_sim_start (nmods sc') (cfg sc' m) now m stage (fst acc)) tl (s', false)))).
+  Div m w (x_w (fst (fold_left (fun (acc : xs * bool) stage => if snd acc then acc else restart_stage (nmods sc') (cfg sc' m) now m stage (fst acc)) tl (s', false)))).
 Proof.
   induction tl as [|st tl IH]; intros s' Hne H; cbn [fold_left fst snd]; [exact H|].
   inversion Hne as [|x l Hx Hl]; subst. rewrite at_sim_start_later by assumption.
